@@ -19,9 +19,8 @@ EXPECTED_D.discard("_derivedParamList")  # only the dict is read at compile time
 # written by a non-generator: attribute -> writers allowed without trip, reason.
 DERIVED_CACHE_EXCEPTIONS = {
     "_sp": {"writers": {"set_sp"},
-            "reason": "_sp is a pure function of the state and parameter lists; states are fixed under this "
-                      "property and after add-parameter the new value only reaches an evaluator through the "
-                      "`parameters` setter, which calls set_sp()"},
+            "reason": "_sp is a pure function of the state and parameter lists and is rebuilt by the recompile routine itself on every "
+                      "recompilation (decided on all short histories, including 'add a parameter then evaluate', by R-GUARD)"},
     "_s": {"writers": {"set_sp"}, "reason": "same as _sp"},
 }
 
